@@ -219,6 +219,26 @@ func runSpliceSampled(m *mon, r *rand.Rand, seed int64, tier string, k int) {
 		}
 		strs = append(strs, s)
 	}
+	// several expansions in one string, each of them complete, malformed
+	// (empty name) or cut short: what the parser leaves unread behind the first
+	// one it rejects
+	multi := 0
+	for i := 0; i < 96; i++ {
+		s := ""
+		for p, n := 0, 2+r.Intn(2); p < n; p++ {
+			switch r.Intn(4) {
+			case 0, 1:
+				s += "${" + names[r.Intn(len(names))] + ops[r.Intn(len(ops))] + "}"
+			case 2:
+				s += nthString(spliceAlpha, r.Intn(lo))
+			default:
+				s += "x "
+			}
+		}
+		strs = append(strs, s)
+		multi++
+	}
+	m.res.Ev("a_splice_strings_of_several_expansions", int64(multi))
 	m.res.Ev("a_splice_strings_sampled", int64(len(strs)))
 	runSpliceStrings(m, strs)
 }
